@@ -88,6 +88,9 @@ class Mixture(BigSMILESbase):
 
     def generate_string(self, extension):
         if extension:
+            if self.absolute_mass is None and self.relative_mass is None:
+                # Nothing is known about the masses, keep what was written.
+                return self._raw_text
             if self.absolute_mass is None:
                 return f".|{self.relative_mass}%|"
             return f".|{self.absolute_mass}|"
